@@ -107,16 +107,29 @@ Proof.
   destruct y, k0 as [|[|]], k1 as [|[|]]; vm_compute; tauto.
 Qed.
 
-(* using the returned reader (Read, Descriptor) is not a step of the protocol *)
-Theorem use_neutral s u s' : estep (EUse u) s = Some s' -> s' = s.
+(* using the returned reader (Read, Descriptor) is not a step of the protocol: the member's
+   reader sees the context of the call that opened it (touch_rd), and in every reachable state
+   that context has not been cancelled under it - nothing is recorded, nothing changes *)
+Definition chk_use (s : state) : bool :=
+  forallb (fun u => match estep (EUse u) s with Some s' => state_beq s' s | None => true end)
+          [UPartial; UDrain; UDesc].
+Lemma chk_use_all : forallb chk_use reachable = true.
+Proof. vm_cast_no_check (eq_refl true). Qed.
+
+Theorem use_neutral s u s' : reach s -> estep (EUse u) s = Some s' -> s' = s.
 Proof.
-  cbn. destruct (main s), (st s), (res s), (cl s); congruence.
+  intros R E. pose proof (check_all _ chk_use_all s R) as C. unfold chk_use in C.
+  rewrite forallb_forall in C.
+  assert (I : In u [UPartial; UDrain; UDesc]) by (destruct u; cbn; tauto).
+  specialize (C u I). rewrite E in C. now apply state_beq_eq in C.
 Qed.
 
-Theorem use_enabled s u : main s = M_returned -> st s = Blob -> (exists j, res s = ROk j) ->
+Theorem use_enabled s u : reach s -> main s = M_returned -> st s = Blob -> (exists j, res s = ROk j) ->
   cl s = Cl_none -> estep (EUse u) s = Some s.
 Proof.
-  intros M Y [j R] C. cbn. now rewrite M, Y, R, C.
+  intros Rs M Y [j R] C.
+  assert (E : estep (EUse u) s = Some (touch_rd j s)) by (cbn; now rewrite M, Y, R, C).
+  rewrite E. f_equal. now apply (use_neutral s u).
 Qed.
 
 (* ---------- everything the harness-style runner visits satisfies any step-closed predicate ---------- *)
@@ -431,6 +444,57 @@ Theorem chosen_ctx_live_at_answer s j : reach s -> res s = ROk j -> rdead (sd j 
 Proof.
   intros R E D. pose proof (check_all _ chk_ctx_all s R) as C. unfold chk_ctx in C.
   rewrite E, D in C. apply andb_true_iff in C as [_ C]. exact C.
+Qed.
+
+(* --- 3d. no context is cancelled under a reader that is still open --- *)
+(* the ghost that the member readers' methods set is never set: whenever a method of a member's
+   reader starts on the open reader - Close called by the losing sender, Close called by
+   blobReader.Close, Read / Descriptor through the returned reader - the member's context has
+   not been cancelled by the unifier *)
+Definition chk_early (s : state) : bool :=
+  forallb (fun i =>
+    negb (early (sd i s))
+    && implb (spc_beq (pc (sd i s)) S_dclose) (negb (own (sd i s)))
+    && implb (clpc_beq (cl s) Cl_inner && result_beq (res s) (ROk i)) (negb (own (sd i s))))
+    [M0; M1].
+Lemma chk_early_all : forallb chk_early reachable = true.
+Proof. vm_cast_no_check (eq_refl true). Qed.
+
+Lemma chk_early_at s i : reach s ->
+  (negb (early (sd i s))
+   && implb (spc_beq (pc (sd i s)) S_dclose) (negb (own (sd i s)))
+   && implb (clpc_beq (cl s) Cl_inner && result_beq (res s) (ROk i)) (negb (own (sd i s)))) = true.
+Proof.
+  intros R. pose proof (check_all _ chk_early_all s R) as C. unfold chk_early in C.
+  rewrite forallb_forall in C. apply (C i). destruct i; cbn; tauto.
+Qed.
+
+Theorem never_cancelled_under_open_reader s i : reach s -> early (sd i s) = false.
+Proof.
+  intros R. pose proof (chk_early_at s i R) as C.
+  apply andb_true_iff in C as [C _]. apply andb_true_iff in C as [C _].
+  now apply negb_true_iff in C.
+Qed.
+
+(* the chosen member's context is live (the caller's cancellation aside) at the moment
+   blobReader.Close calls the member reader's Close *)
+Theorem chosen_ctx_live_at_close s j : reach s -> cl s = Cl_inner -> res s = ROk j ->
+  own (sd j s) = false /\ dead j s = cctx s.
+Proof.
+  intros R C E. pose proof (chk_early_at s j R) as H.
+  apply andb_true_iff in H as [_ H]. rewrite C, E in H.
+  rewrite (internal_result_dec_lb _ _ eq_refl) in H. cbn in H. apply negb_true_iff in H.
+  split; [assumption|]. unfold dead. rewrite H. apply orb_false_r.
+Qed.
+
+(* ... and so is the context of the member that was not chosen when its sender closes its reader *)
+Theorem loser_ctx_live_at_close s i : reach s -> pc (sd i s) = S_dclose ->
+  own (sd i s) = false /\ dead i s = cctx s.
+Proof.
+  intros R P. pose proof (chk_early_at s i R) as H.
+  apply andb_true_iff in H as [H _]. apply andb_true_iff in H as [_ H]. rewrite P in H.
+  cbn in H. apply negb_true_iff in H.
+  split; [assumption|]. unfold dead. rewrite H. apply orb_false_r.
 Qed.
 
 (* --- 4. goroutines --- *)
